@@ -21,7 +21,9 @@ def plan(tier, seed):
     kinds = ["single", "single", "inplay", "two_markets_seq", "two_markets_event", "no_factors", "single", "reopen_after_close"]
     # directed case for the listed finding C09-sp-lay-matched-late-withdrawal (a MARKET_ON_CLOSE lay matched at the starting price,
     # then a runner withdrawn in play with a factor >= 2.5)
-    return [{"seed": seed, "idx": 0, "kind": "inplay", "force_moc_lay": True}] + [{"seed": seed, "idx": i, "kind": kinds[i % len(kinds)]} for i in range(1, n)]
+    cases = [{"seed": seed, "idx": 0, "kind": "inplay", "force_moc_lay": True}] + [{"seed": seed, "idx": i, "kind": kinds[i % len(kinds)]} for i in range(1, n)]
+    # paper trading: the same middleware voids the bets, completion is reported by the simulated order stream
+    return cases + [{"seed": seed, "idx": i, "kind": "paper", "len": 50 + i % 40} for i in range(300 if tier == "quick" else 6000)]
 
 
 def _one_market(rng, mid, kind, sels=None, t0=G.T0, factor=None, victim_i=None, event_id="30000001"):
@@ -111,7 +113,36 @@ def build(desc):
     return case, snaps
 
 
+def run_paper(desc):
+    from .. import paperwalk
+
+    out = O.Out(PROPERTY)
+
+    def observe(r, m, phase):
+        if phase != "book" or m.market_book is None:
+            return  # judged at quiescent points: every call answered, one poll processed
+        gone = {(rn.selection_id, rn.handicap) for rn in m.market_book.runners if rn.status == "REMOVED"}
+        for o in m.blotter:
+            if (o.selection_id, o.handicap) in gone and o.status is not None and o.status.name != "VIOLATION" and o.bet_id:
+                out.rule("void")
+                tags = {"otype": {"LIMIT": "LIMIT", "LIMIT_ON_CLOSE": "LOC", "MARKET_ON_CLOSE": "MOC"}[o.order_type.ORDER_TYPE.name], "paper": True, "persistence": getattr(o.order_type, "persistence_type", None)}
+                if o.size_matched or o.simulated.size_matched:
+                    out.v("removed-runner-order-still-matched", dict(tags, state_before="later", cause="-"), order=r.tr.okey(o))
+                if o.size_remaining:
+                    out.v("removed-runner-order-has-remaining", dict(tags, state_before="later", cause="-"), order=r.tr.okey(o))
+                if not o.complete and o.status.name not in ("CANCELLING", "UPDATING", "REPLACING"):
+                    out.v("removed-runner-order-not-complete", dict(tags, status=o.status.name, cause="-"), order=r.tr.okey(o))
+
+    r = paperwalk.walk(desc, observe)
+    out.c("removals_in_files", sum(1 for sn in r.snaps.values() for _ in O.removal_updates(sn)))
+    out.c("paper_walks")
+    out.d("c09paper:%d" % min(len(r.orders), 10))
+    return out.result()
+
+
 def run(desc):
+    if desc["kind"] == "paper":
+        return run_paper(desc)
     case, snaps = build(desc)
     tr = simrun.run_case(case)
     out = O.Out(PROPERTY)
